@@ -13,6 +13,10 @@ CLAIMS = {
     text="Bounded model checking of the real linfa-nn code instantiated with a symbolic scalar: every feasible control-flow path of index build + query is enumerated by concolic search (z3 decides each branch flip), and on each path the brute-force oracle obligations are discharged by the solver for all inputs of the path. Exhaustive for all integer point sets |x|<=1024 at the listed small shapes (n<=4 in 1-D, n<=3 in 2-D in the thorough tier), k below/at/above n, leaf sizes 1-2, L1/Linf (L2 via rdistance for k-d tree and linear scan). Counterexamples are replayed natively with f64.",
     technique="symbolic-scalar concolic execution of the compiled generic code + SMT (z3, LIRA) per path; native f64 replay",
     design_ref="DESIGN.md §2, §4 C07"),
+ "C03": dict(
+    text="Symbolic execution of the real blanket Predict impls, composing wrappers and eight fitted predictor families on symbolic query rows: outputs are terms over the inputs, so 'the same value for the same row in any batch, order, duplication, layout (row/column-major, strided view) and calling form' is decided structurally (identical hash-consed term = bit-identical IEEE value) or, where ndarray re-associates a sum, by z3 up to a relative 1e-9; all control-flow paths of predict over the bounded query grid are enumerated (exhaustive at the listed shapes unless evidence says otherwise). MultiClassModel arg-max is enumerated over solver-chosen probability grids.",
+    technique="symbolic-scalar concolic execution + term identity / SMT (z3) per path; native f64 replay",
+    design_ref="DESIGN.md §4 C03"),
 }
 NA = {}
 
